@@ -418,6 +418,10 @@ class Executor:
             return k.normal(st)
         if self.is_dropped_call(s.value):
             self.dropped.append(ast.unparse(s.value)[:60])
+            if self.modname == 'engine':
+                # the value and effect of a logging call are dropped, its exceptional edge is not: any call can raise (at the least
+                # RecursionError near the depth limit), and in the engine that must not leave a binding behind
+                k.exc(st.fork().tag('raise-in-logging-call'), Exc('RecursionError'))
             return k.normal(st)
         for st2, v in self.eval(s.value, st):
             if isinstance(v, Exc):
@@ -911,6 +915,9 @@ class Executor:
         sti.ghost['k%d' % n] = kk
 
         def preserve(st2):
+            if st2.flags.get('closing') and any(isinstance(x, (ast.Yield, ast.YieldFrom)) for y in s.body for x in ast.walk(y)):
+                # a handler swallowed the GeneratorExit of close() and the loop goes on to an iteration that yields
+                self.oblige(st2.fork().tag('preserve'), 'close.loop_continues_to_a_yield_after_GeneratorExit', 'false', 'safety')
             ex1 = {'k': '(+ %s 1)' % kk, 'n': bound.e}
             for j, inv in enumerate(spec.inv):
                 self.oblige(st2.fork().tag('preserve'), 'loop%d.inv%d' % (n, j), self.fmt(inv, st2, ex1), 'inv')
@@ -970,6 +977,11 @@ class Executor:
         c = self.c
         yn = self.yield_ord[id(y)]
         st = st.tag('yield%d' % yn)
+        if st.flags.get('closing'):
+            # close() was delivered as GeneratorExit, a handler swallowed it and the generator goes on to yield: Python raises
+            # RuntimeError("generator ignored GeneratorExit") at the caller of close()
+            self.oblige(st, 'close.generator_ignored_GeneratorExit', 'false', 'safety')
+            return
         if c.kind == 'semidet-gen':
             res = self.fmt(c.spec, st)
             if st.yields >= 1:
@@ -1006,7 +1018,10 @@ class Executor:
                 self.theory.env_step(self, st2)
             return st2
         k.normal(env_step(base.fork().tag('resume')))
-        k.exc(env_step(base.fork().tag('close')), Exc('GeneratorExit'))
+        stc = env_step(base.fork().tag('close'))
+        stc.flags = dict(stc.flags)
+        stc.flags['closing'] = True
+        k.exc(stc, Exc('GeneratorExit'))
         if thrown:
             k.exc(env_step(base.fork().tag('throw')), Exc('Thrown'))
 
